@@ -9,6 +9,7 @@ import (
 	"fmt"
 	"hash"
 	"math/rand"
+	"regexp"
 	"slices"
 	"strconv"
 	"strings"
@@ -280,6 +281,19 @@ func Payload(c *Case, now time.Time) (map[string]any, error) {
 	}
 
 	return norm, nil
+}
+
+var dateClaim = regexp.MustCompile(`"(exp|nbf|iat)":(\d+)`) //nolint:gochecknoglobals
+
+// ExponentDates spells the dates of a payload the way serialisers of doubles do (1.759573000e+09):
+// the same numbers, another JSON text.
+func ExponentDates(payload []byte) []byte {
+	return dateClaim.ReplaceAllFunc(payload, func(m []byte) []byte {
+		sub := dateClaim.FindSubmatch(m)
+		n, _ := strconv.ParseInt(string(sub[2]), 10, 64)
+
+		return []byte(fmt.Sprintf("%q:%.9e", sub[1], float64(n)))
+	})
 }
 
 // Canon is the canonical JSON used to compare claims and subject attributes.
